@@ -98,10 +98,31 @@ func c20SearchInLoop(c *Ctx, p *core.Prog) {
 						continue
 					}
 					// loop-variant start: depends on a phi of this loop
+					// (a phi of the loop's header: a merge inside the body, such as a `found` index, is not the cursor)
 					var ph *ssa.Phi
 					for _, hb := range scc {
+						isHeader := false
+						for _, pr := range hb.Preds {
+							if !in[pr] {
+								isHeader = true
+							}
+						}
+						if !isHeader {
+							continue
+						}
 						for _, hi := range hb.Instrs {
-							if cand, ok := hi.(*ssa.Phi); ok && valueDependsOn(sl.Low, cand, 0, map[ssa.Value]bool{}) {
+							cand, ok := hi.(*ssa.Phi)
+							if !ok {
+								continue
+							}
+							// within one iteration: do not look through the other header phis
+							stop := map[ssa.Value]bool{}
+							for _, h2 := range hb.Instrs {
+								if hp, ok := h2.(*ssa.Phi); ok && hp != cand {
+									stop[hp] = true
+								}
+							}
+							if valueDependsOn(sl.Low, cand, 0, stop) && ph == nil {
 								ph = cand
 							}
 						}
